@@ -119,7 +119,9 @@ def outSeg (obs : String) : String := (obs.splitOn " || ").headD ""
     that equals a usable secret in cleartext (4th segment "taint=,item,…"); each item is a hit -/
 def taintHits (obs : String) : List String :=
   match (obs.splitOn " || ").find? (fun s => s.startsWith "taint=") with
-  | some s => (decList (s.drop 6).toString).map (fun it => "C20:storage-sees-secret:" ++ it)
+  | some s => (decList (s.drop 6).toString).map (fun it =>
+      -- "response:internal-detail:<error>": the text of an injected storage error reached what the client is shown
+      if it.startsWith "response:" then "C20:response-leaks-" ++ (it.drop 9).toString else "C20:storage-sees-secret:" ++ it)
   | none => []
 
 def outKind (o : String) : String := (o.splitOn " ").headD ""
@@ -145,7 +147,7 @@ def descBase (d : String) : String := (d.splitOn "~").headD ""
 def descExact (d : String) : Bool := !(d.contains '~') && d != "garbage" && d != "foreign"
 /-- the presented string carries the stored signature (exact copy, or same signature with another
     random part): lookups by signature find the record -/
-def sigMatches (d : String) : Bool := descExact d || d.endsWith "~r"
+def sigMatches (d : String) : Bool := descExact d || d.endsWith "~r" || d.endsWith "~q"
 
 def refreshScopesOK (b : Book) (granted : List String) : Bool :=
   let rs := decList (b.cfgv "refreshScopes")
